@@ -11,8 +11,9 @@ import NxsModel.Lemmas.Lifecycle
 namespace Nxs.C09
 open Nxs Nxs.Lifecycle Nxs.Config
 
+/-- a device the client can be connected to: 0..255 channels, 8-bit dividers -/
 def WFDev (d : Device) : Prop :=
-  1 ≤ d.en.length ∧ d.en.length ≤ 255 ∧ d.div.length = d.en.length ∧ ∀ v ∈ d.div, 0 ≤ v ∧ v ≤ 255
+  d.en.length ≤ 255 ∧ d.div.length = d.en.length ∧ ∀ v ∈ d.div, 0 ≤ v ∧ v ≤ 255
 
 /-- the state after a history of calls on a fresh handler -/
 def after (d0 : Device) (started : Bool) (flags : Nat) (calls : List Call) : World :=
@@ -81,5 +82,18 @@ theorem source_shape :
 example : (after ⟨[false, true, false], [0, 5, 0]⟩ true 3
     [.streamStart, .connect, .connect, .chEnable [0] true, .streamStart, .sub 1, .disconnect]).dev
       = ⟨[false, false, false], [0, 5, 0]⟩ := by decide +kernel
+
+/-- non-vacuity of the zero-channel case: a device without channels is well formed … -/
+example : WFDev ⟨[], []⟩ := by simp [WFDev]
+
+/-- … and a full life cycle in front of it goes through: no call raises (in particular not the
+    `ch_disable_all(True)` inside disconnect), the device ends in the empty state, the handler off -/
+example : (run (World.fresh ⟨[], []⟩ true 3) [.connect, .streamStart, .chDisableAll true, .disconnect]).2
+      = [.ok, .ok, .ok, .ok] ∧
+    (after ⟨[], []⟩ true 3 [.connect, .streamStart, .chDisableAll true, .disconnect]).dev = ⟨[], []⟩ ∧
+    (after ⟨[], []⟩ true 3 [.connect, .streamStart, .chDisableAll true, .disconnect]).connected = false ∧
+    (after ⟨[], []⟩ true 3 [.connect, .streamStart, .chDisableAll true, .disconnect]).recvThr = false ∧
+    (after ⟨[], []⟩ true 3 [.connect, .streamStart, .chDisableAll true, .disconnect]).hasDev = false := by
+  decide +kernel
 
 end Nxs.C09
